@@ -54,6 +54,7 @@ type Knobs struct {
 	ShortGrace bool
 	Setup      string // directed opening: "" | "scaleup-then-pressure" | "force-then-up" | "below-min" | "from-zero" | "drain"
 	MinZero    float64
+	BigGroups  bool // large groups with removal rates as large as the group (C19: batches beyond 25 nodes)
 }
 
 type groupGen struct {
@@ -98,6 +99,11 @@ func genGroup(k Knobs, r *rand.Rand, gi int, name string) (sim.GroupSpec, int64,
 		minN = 0
 	}
 	maxN := minN + 1 + r.Intn(maxCap-minN)
+	if k.BigGroups {
+		minN = pick(r, 0, 2, 10)
+		maxN = 30 + r.Intn(maxCap-29)
+		fast, slow = 50, pick(r, 5, 50)
+	}
 	soft := pick(r, 1*time.Second, 30*time.Second, time.Minute, 5*time.Minute)
 	hard := pick(r, soft+time.Second, 2*soft, 10*time.Minute+soft, time.Hour)
 	if k.ShortGrace {
@@ -151,6 +157,15 @@ func genGroup(k Knobs, r *rand.Rand, gi int, name string) (sim.GroupSpec, int64,
 			}
 		}
 		asgMin = int64(r.Intn(minN + 1))
+	}
+	if k.BigGroups && o.MinNodes != 0 || k.BigGroups && o.MaxNodes != 0 {
+		if r.Intn(2) == 0 {
+			// the cloud group's own minimum was raised far above min_nodes: large removal batches must be refused whole
+			asgMin = int64(maxN) - int64(6+r.Intn(25))
+			if asgMin < 0 {
+				asgMin = 0
+			}
+		}
 	}
 	if asgMax <= asgMin {
 		asgMax = asgMin + 1
@@ -231,6 +246,9 @@ func NewRun(k Knobs, seed int64, rep *monitor.Report, caseID string, trace io.Wr
 		n0 := lo
 		if hi > lo {
 			n0 = lo + gg.rng.Intn(hi-lo+1)
+		}
+		if k.BigGroups && hi-4 > lo {
+			n0 = hi - gg.rng.Intn(4)
 		}
 		if k.Setup == "from-zero" {
 			n0 = 0
@@ -441,7 +459,9 @@ func maxI64(a, b int64) int64 {
 	return b
 }
 
-var oddTaintValues = []string{"", "abc", "1.5", " 12", "0x10", "99999999999999999999", "-99999999999999999999", "9223372036854775807", "-9223372036854775808", "0", "-1", "+5"}
+var oddTaintValues = []string{"", "abc", "1.5", " 12", "0x10", "99999999999999999999", "-99999999999999999999", "9223372036854775807", "-9223372036854775808", "0", "-1", "+5",
+	// far in the future, still inside int64 and inside what time.Unix represents: year 2321, 5138, 10000, 2.9e11
+	"11093612653", "99999999999", "253402300800", "9000000000000000000", "NaN", "1e9", "true"}
 
 // applyOp performs one world change inside group gi.
 func (run *Run) applyOp(gi int, op string) {
@@ -855,7 +875,7 @@ func (run *Run) advanceClock() {
 		}
 		var future []time.Time
 		for _, c := range cands {
-			for _, d := range []time.Duration{-time.Second, 0, 0, time.Second} {
+			for _, d := range []time.Duration{-time.Second, 0, 0, time.Second, -400 * time.Millisecond, -time.Millisecond, time.Millisecond, 600 * time.Millisecond} {
 				t := c.Add(d)
 				if t.After(now) && t.Sub(now) <= 3*time.Hour {
 					future = append(future, t)
